@@ -76,7 +76,7 @@ CLAIMED.update({
 
 CLAIMED.update({
     "C11": ("Coq proof (atom-string emitters of the four dust models with opaque identifier and magnitude atoms, C lexer/parser with ternaries, relations and subscripts, symbolic evaluation and ring reasoning over R) + exact-text correspondence over models x processes x formats x classes x species x groups + compiled-expression oracle",
-            "Theorems in Props/C11.v: for accretion (base, HH93, RR07 neutral/ion/electron), thermal / photo / cosmic-ray / H2-formation desorption, grain recombination, electron capture, surface two-body reactions (four tunnelling variants) and reactive desorption, the emitted text - after the reaction class's sign clean-up - denotes the dust model's formula for every |alpha| and each of its four sign/zero classes, every printed mass number, binding energy and yield of the reacting species, and every value of the physical parameters, whatever names the reaction format and the grain group give the registry symbols; every emitted string is valid C; exactly the (model, process) pairs the live dispatch table marks NotImplemented are refused; the binding-energy look-up order is explicit > user table > RATE12. Tied to reac.rateexpr(grain) by exact comparison of the text.",
+            "Theorems in Props/C11.v: for accretion (base, HH93, RR07 neutral/ion/electron), thermal / photo / cosmic-ray / H2-formation desorption, grain recombination, electron capture, surface two-body reactions (four tunnelling variants) and reactive desorption, the emitted text - after the reaction class's sign clean-up - denotes the dust model's formula for every |alpha| and each of its four sign/zero classes, every printed mass number, binding energy and yield of the reacting species, and every value of the physical parameters, whatever names the reaction format and the grain group give the registry symbols; every emitted string is valid C; exactly the (model, process) pairs the live dispatch table marks NotImplemented are refused; the binding-energy look-up order is explicit > user table > RATE12. Tied to reac.rateexpr(grain) by exact comparison of the text. Tie by translation as well: harness/gen_grainsrc.py evaluates the 15 rate_* methods of the dust-model classes symbolically (grain symbols looked up on live instances) into coq/gen/GrainLive.v on every run; live_grain_sources proves the translated strings are the model's templates.",
             "Reference formulae are a transcription of Hasegawa & Herbst (1993) / UCLCHEM 1.3; symbols a reaction format does not register raise AttributeError (counted as refusal); electron accretion outside RR07 divides by a zero mass number (reference skipped); str.replace bridge proved in C05 (beautify_bridge), premise evaluated per case.",
             "7 C11"),
 })
